@@ -254,6 +254,7 @@ class Parser:
         self.struct_types = set()                   # struct type names whose locals are modelled (configured per target)
         self.ptr_elems = set()                      # element type names `E` such that `E*` is a pointer into the array's data
         self.skip_prefixes = []                     # token prefixes of statements that are ignored (configured per target, recorded)
+        self.float_types = set()                    # type names that denote the floating type of a float-polymorphic target (kind 'F')
 
     # -- helpers
     def err(self, msg):
@@ -299,7 +300,9 @@ class Parser:
         if name == 'long' and self.peek(j - self.i).text == 'long':
             j += 1
         kind = None
-        if name in INT_TYPES or (len(words) > 1 and words[-1] in ('index_type',)):
+        if name in self.float_types:
+            kind = 'F'
+        elif name in INT_TYPES or (len(words) > 1 and words[-1] in ('index_type',)):
             kind = 'int'
         elif name in self.tparams:
             kind = self.tparams[name]
@@ -307,6 +310,8 @@ class Parser:
             kind = 'u32'
         elif name == 'bool':
             kind = 'bool'
+        elif name in self.float_types:
+            kind = 'F'
         elif name in UNSUPPORTED_TYPES:
             self.i = save
             return 'unsupported:' + name
@@ -729,6 +734,8 @@ class Translator:
                 return f'(if {t} = true then 1 else 0)'
             if k == 'T':
                 return t
+        if want == 'F':
+            return self.toF(tk, ln)
         if want == 'u32' and k == 'int' and re.fullmatch(r'\d+', t) and int(t) < 2 ** 32:
             return t
         if want == 'prop' and k == 'u32':
@@ -781,6 +788,47 @@ class Translator:
         if e[0] == 'un' and e[1] == '*':
             return '*' + self._path(e[1 + 1])
         return '?'
+
+    # ---- floating values (kind 'F'): the generated definition is polymorphic in the scalar type `α`; every operation is
+    # emitted through a template of `spec['fops']` (default: the notation of the operator classes the models are written
+    # over), so the rounding sequence of the C++ expression is the operation sequence of the Lean term
+    FOPS = dict(natlit='(({n} : Nat) : α)', ofint='(({e} : Int) : α)', add='({a} + {b})', sub='({a} - {b})', mul='({a} * {b})',
+                div='({a} / {b})', neg='(-{a})', lt='({a} < {b})', gt='({a} > {b})')
+
+    def fop(self, name, ln, **kw):
+        ops = dict(self.FOPS)
+        ops.update(self.spec.get('fops') or {})
+        if name not in ops:
+            raise self.err(ln, f'floating operation `{name}` (outside the subset for this target)')
+        return ops[name].format(**kw)
+
+    def flit(self, text, ln):
+        from fractions import Fraction
+        t = text.rstrip('fFlL')
+        try:
+            fr = Fraction(t)
+        except ValueError:
+            raise self.err(ln, f'floating literal {text}')
+        if fr < 0:
+            raise self.err(ln, f'floating literal {text}')
+        if fr.denominator == 1:
+            return self.fop('natlit', ln, n=fr.numerator)
+        # a decimal constant is the reduced fraction num / den of two small naturals: one correctly rounded division, the
+        # same double as the literal as long as num and den are exactly representable and the quotient is the nearest double
+        # to the decimal (true for the short decimals of the sources; checked by the differential run)
+        if fr.numerator >= 2 ** 24 or fr.denominator >= 2 ** 24:
+            raise self.err(ln, f'floating literal {text}: not a short decimal')
+        return self.fop('div', ln, a=self.fop('natlit', ln, n=fr.numerator), b=self.fop('natlit', ln, n=fr.denominator))
+
+    def toF(self, tk, ln):
+        t, k = tk
+        if k == 'F':
+            return t
+        if k == 'int':
+            if re.fullmatch(r'\d+', t):
+                return self.fop('natlit', ln, n=t)
+            return self.fop('ofint', ln, e=t)
+        raise self.err(ln, f'conversion {k} -> floating of `{t}` (outside the subset)')
 
     def etype(self):
         return (self.spec.get('trace') or {}).get('etype', 'Int × Int')
@@ -876,6 +924,10 @@ class Translator:
                 return ('()', 'elem')
         if k == 'lean':
             return (e[1], 'prop')
+        if k == 'float':
+            if not self.spec.get('float'):
+                raise self.err(ln, f'floating-point literal {e[1]} (outside the subset)')
+            return (self.flit(e[1], ln), 'F')
         if k == 'int':
             return (str(e[1]), 'int')
         if k == 'boollit':
@@ -931,10 +983,18 @@ class Translator:
             a = self.expr(e[2], env, ln)
             if want == 'bool':
                 return (self.coerce(a, 'prop', ln), 'prop')
+            if want == 'F':
+                return (self.toF(a, ln), 'F')
+            if a[1] == 'F':
+                if want != 'int':
+                    raise self.err(ln, f'conversion of a floating value to {want} (outside the subset)')
+                return (self.fop('trunc', ln, a=a[0]), 'int')
             return (self.coerce(a, want, ln), want)
         if k == 'cond':
             c = self.coerce(self.expr(e[1], env, ln), 'prop', ln)
             a, b = self.expr(e[2], env, ln), self.expr(e[3], env, ln)
+            if 'F' in (a[1], b[1]):
+                return (f'(if {c} then {self.toF(a, ln)} else {self.toF(b, ln)})', 'F')
             kind = self.join_kind(a[1], b[1], ln)
             if kind == 'prop':
                 return (f'(if {c} then decide ({a[0]}) else decide ({b[0]})) = true', 'prop')
@@ -944,6 +1004,8 @@ class Translator:
             if e[1] == '!':
                 return (f'¬ {self.atom(self.coerce(a, "prop", ln))}', 'prop')
             if e[1] in ('-', '+'):
+                if a[1] == 'F':
+                    return (self.fop('neg', ln, a=a[0]) if e[1] == '-' else a[0], 'F')
                 if a[1] == 'int':
                     return (f'(-{self.atom(a[0])})' if e[1] == '-' else a[0], 'int')
                 if a[1] in ('T', 'Tx'):
@@ -956,6 +1018,13 @@ class Translator:
                 b = self.coerce(self.expr(e[3], env, ln), 'prop', ln)
                 return (f'({a} {"∧" if op == "&&" else "∨"} {b})', 'prop')
             a, b = self.expr(e[2], env, ln), self.expr(e[3], env, ln)
+            if 'F' in (a[1], b[1]):
+                x, y = self.toF(a, ln), self.toF(b, ln)
+                name = {'+': 'add', '-': 'sub', '*': 'mul', '/': 'div', '<': 'lt', '>': 'gt', '<=': 'le', '>=': 'ge', '==': 'eq',
+                        '!=': 'ne'}.get(op)
+                if name is None:
+                    raise self.err(ln, f'`{op}` on a floating value (outside the subset)')
+                return (self.fop(name, ln, a=x, b=y), 'prop' if name in ('lt', 'gt', 'le', 'ge', 'eq', 'ne') else 'F')
             if op in ('==', '!=', '<', '<=', '>', '>='):
                 self.check_comparable(a, b, ln)
                 lop = {'==': '=', '!=': '≠', '<': '<', '<=': '≤', '>': '>', '>=': '≥'}[op]
@@ -1018,6 +1087,9 @@ class Translator:
                 if kind not in ('int', 'T'):
                     raise self.err(ln, f'{name} on {kind} (outside the subset)')
                 return (f'({base} {self.atom(self.coerce(a, kind, ln))} {self.atom(self.coerce(b, kind, ln))})', kind)
+            if base in ('fabs', 'floor', 'ceil', 'sqrt') and len(args) == 1 and self.spec.get('float'):
+                a = self.expr(args[0], env, ln)
+                return (self.fop(base, ln, a=self.toF(a, ln)), 'F')
             if name in ('std::abs', 'abs', 'std::labs', 'labs') and len(args) == 1:
                 a = self.expr(args[0], env, ln)
                 if a[1] != 'int':
@@ -1645,7 +1717,7 @@ class Translator:
         return out
 
     def lean_type(self, kd):
-        return {'int': 'Int', 'T': 'Int', 'bool': 'Bool', 'ptr': 'Int', 'addr': 'Int', 'u32': 'Nat', 'list': 'List Int'}[kd]
+        return {'int': 'Int', 'T': 'Int', 'bool': 'Bool', 'ptr': 'Int', 'addr': 'Int', 'u32': 'Nat', 'list': 'List Int', 'F': 'α'}[kd]
 
     def addr_of(self, e, env, ln):
         """the element offset designated by the lvalue `e` (`p[i]` or `*p` with `p` a pointer into the data)"""
@@ -1854,6 +1926,26 @@ _FIND2D = dict(file='mahotas/_convolve.cpp', func='find2d', pick='generic', tpar
                skip_prefixes=[['gil_release'], ['bool', '*'], ['std', '::', 'fill']],
                accessors={'array.dim()': ('adims', 'int'), 'target.dim()': ('tdims', 'int')})
 TARGETS += [
+    # floating helpers, polymorphic in the scalar type (the operator classes the models are written over)
+    dict(key='spline_coeff', file='mahotas/_interpolate.cpp', func='spline_coefficients', pick='generic', tparams=['FT'],
+         lean='spline_coeff', params=[], raw_params=True, c_param_names=['x', 'order', 'result'],
+         extra_params=[('order', 'int'), ('y', 'F'), ('res_', 'F')], env_kinds={'order': 'int', 'y': 'F', 'res_': 'F'},
+         ret_kind='F', select=dict(kind='switch'), result='res_', rename_seq=[(('result', '[', 'hh', ']'), 'res_')],
+         float=['FT', 'double'], driver_call='spline_coeff (α := Float) (x 0) (fl_ (x 1)) (fl_ (x 2))',
+         doc='the `switch (order)` of `spline_coefficients` (one B-spline weight as a function of the distance `y` to the knot), '
+             'polymorphic in the scalar type `α`: every C++ operation is one operation of `α` in the same order (the rounding '
+             'sequence); a decimal constant is the quotient of two small naturals; `result[hh]` is the variable `res_` (its old '
+             'value is returned for an `order` without a case)'),
+    dict(key='rank_currank', file='mahotas/_convolve.cpp', func='rank_filter', pick='generic', tparams=['T'], lean='rank_currank',
+         params=[], raw_params=True, c_param_names=['res', 'array', 'Bc', 'rank', 'mode', 'cval'],
+         extra_params=[('n', 'int'), ('N2', 'int'), ('rank', 'int')], env_kinds={'n': 'int', 'N2': 'int', 'rank': 'int'},
+         ret_kind='int', select=dict(kind='from-decl', var='currank', count=2), result='currank', float=['double'],
+         fbinders='{α : Type} (ofNat : Nat → α) (div : α → α → α) (trunc : α → Nat)',
+         fops=dict(ofint='(ofNat (Int.toNat {e}))', natlit='(ofNat {n})', div='(div {a} {b})', trunc='((trunc {a} : Nat) : Int)'),
+         driver_call='rank_currank Float.ofNat (· / ·) (fun v => v.toUInt64.toNat) (x 0) (x 1) (x 2)',
+         doc='the statements `npy_intp currank = rank; if (n != N2) { currank = npy_intp(n * rank/double(N2)); }` of `rank_filter`, '
+             'polymorphic in the floating type: `ofNat` converts a (non-negative) integer, `div` divides, `trunc` is the conversion '
+             'back to `npy_intp`'),
     dict(_FIND2D, key='find2d_marks', lean='find2d_marks',
          trace=dict(reads=[], silent_reads=['array.at()', 'target.at()'], writes=['out.at()'], oracle=('ne_', '!=', 4)),
          driver_call='find2d_marks (fun i j k l => decide ((a.ints "l2").getD (Int.toNat (i * ((a.ints "l0").getD 1 0) + j)) 0 ≠ '
@@ -1910,6 +2002,9 @@ def c_params(f: CFunc):
         out.append(cur)
     res = []
     for p in out:
+        eq = next((k for k, t in enumerate(p) if t.kind == 'op' and t.text == '='), None)
+        if eq is not None:                                   # default argument
+            p = p[:eq]
         if p[-1].kind != 'id':
             res.append((' '.join(t.text for t in p), None))          # unnamed parameter
         else:
@@ -1975,11 +2070,29 @@ def translate_target(repo: Path, tg, known) -> dict:
     pr.ptr_elems = set(tg.get('ptr_elems') or [])
     pr.struct_types = set(tg.get('struct_types') or [])
     pr.skip_prefixes = [tuple(x) for x in (tg.get('skip_prefixes') or [])]
+    if tg.get('float'):
+        pr.float_types = set(tg['float'])
+        pr.allow_float = True
+    for seq, name in (tg.get('rename_seq') or []):      # e.g. `result [ hh ]` -> one scalar variable
+        nt, k = [], 0
+        while k < len(pr.toks):
+            if [t.text for t in pr.toks[k:k + len(seq)]] == list(seq):
+                t0 = pr.toks[k]
+                nt.append(Tok('id', name, t0.line, t0.pos, t0.end))
+                k += len(seq)
+            else:
+                if pr.toks[k].kind == 'id' and pr.toks[k].text == name:
+                    raise TranslationError(f'{where}: the name `{name}` is in use')
+                nt.append(pr.toks[k])
+                k += 1
+        pr.toks = nt
     if tg.get('trace'):
         pr.allow_float = True
         pr.tparams.update({n: 'elem' for n in list(tparams) + ['double', 'float']})
     if tg.get('select') == 'first-for-body':
         body = select_first_for(f, pr, where)
+    elif isinstance(tg.get('select'), dict):
+        body = select_stmts(pr, where, tg['select'])
     else:
         body = pr.block()
         if pr.i != len(pr.toks):
@@ -1994,7 +2107,8 @@ def translate_target(repo: Path, tg, known) -> dict:
             env[n] = kd
     for n in tg.get('env_params', []):
         env[n] = 'int'
-    if tg.get('select') == 'first-for-body':
+    env.update(tg.get('env_kinds') or {})
+    if tg.get('select'):
         res = tg['result']
         term = tr.stmts(body, env, lambda env2, ind2: '  ' * ind2 + lname(res), 1)
     else:
@@ -2006,6 +2120,8 @@ def translate_target(repo: Path, tg, known) -> dict:
     if tg.get('trace'):
         term = f'  let acc_ : List ({tr.etype()}) := []\n' + term
     binders = []
+    if tg.get('float'):
+        binders.append(tg.get('fbinders') or '{α : Type} [Add α] [Sub α] [Mul α] [Div α] [Neg α] [NatCast α] [IntCast α] [LT α] [DecidableLT α]')
     if tr.uses_dt:
         binders.append('(dt : DT)')
     if tg.get('trace') and tg['trace'].get('oracle'):
@@ -2036,6 +2152,39 @@ def translate_target(repo: Path, tg, known) -> dict:
     info = dict(lean=tg['lean'], params=[kd for _, kd in cfg + list(tg.get('extra_params', []))], ret=tg['ret_kind'],
                 dt=('T-as-arg' if tg.get('template_call') else tr.uses_dt))
     return dict(lines=lines, info=info, func=f, calls=sorted(tr.calls))
+
+
+def select_stmts(pr: Parser, where, sel):
+    """statement selection inside a long function that is outside the subset as a whole:
+       kind='switch'     the first `switch` statement of the function
+       kind='from-decl'  the declaration `<type> var = …;` of the local `var` and the `count - 1` statements after it"""
+    toks = pr.toks
+    if sel['kind'] == 'switch':
+        for i, t in enumerate(toks):
+            if t.kind == 'id' and t.text == 'switch':
+                pr.i = i
+                out = [pr.stmt()]
+                pr.sel_span = (toks[i].pos, toks[pr.i - 1].end)
+                return out
+        raise TranslationError(f'{where}: no `switch` statement found')
+    if sel['kind'] == 'from-decl':
+        hits = [i for i, t in enumerate(toks) if t.kind == 'id' and t.text == sel['var'] and i + 1 < len(toks) and toks[i + 1].text == '='
+                and i > 0 and toks[i - 1].kind == 'id']
+        starts = []
+        for i in hits:
+            a = i
+            while a > 0 and not (toks[a - 1].kind == 'op' and toks[a - 1].text in (';', '{', '}')):
+                a -= 1
+            pr.i = a
+            if pr.try_type() is not None and pr.i == i:
+                starts.append(a)
+        if len(starts) != 1:
+            raise TranslationError(f'{where}: {len(starts)} declarations of the local `{sel["var"]}` found, expected exactly one')
+        pr.i = starts[0]
+        out = [pr.stmt() for _ in range(sel['count'])]
+        pr.sel_span = (toks[starts[0]].pos, toks[pr.i - 1].end)
+        return out
+    raise TranslationError(f'{where}: unknown selection {sel}')
 
 
 def select_first_for(f: CFunc, pr: Parser, where):
@@ -2155,6 +2304,11 @@ def extracted_sources(repo: Path) -> dict:
                 enum = (tg['enum'][1], parse_enum(tg['enum'][0], (repo / tg['enum'][0]).read_text(), tg['enum'][1]))
             deps = dependencies(tg['file'], f.src, f) if tg.get('with_deps') else []
             out[tg['key']] = dict(text=f.text, deps=deps, hash=f.hash, enum=enum, func=tg['func'], lean=tg['lean'])
+            if isinstance(tg.get('select'), dict):          # the selected statements, as they stand in the source
+                pr = Parser(f.body_toks, tg['key'], tparams={n: 'T' for n in tg.get('tparams', [])})
+                pr.float_types, pr.allow_float = set(tg.get('float') or []), bool(tg.get('float'))
+                select_stmts(pr, tg['key'], tg['select'])
+                out[tg['key']]['slice'] = f.src[pr.sel_span[0]:pr.sel_span[1]]
         except TranslationError:
             continue
     return out
@@ -2163,7 +2317,9 @@ def extracted_sources(repo: Path) -> dict:
 def handle_block(entries) -> list[str]:
     """the driver entry point `cs fn=<name> [dt=<dtype>] a=<scalars> l0=<list> l1=<list>`: evaluates a generated definition
     (used by harness/foundation/cscalar.py to compare it with the compiled C++ text)"""
-    s = ['/-- driver op `cs`: `fn` = generated definition, `a` = its scalar arguments in order, `l0, l1, …` = its list',
+    s = ['local instance : NatCast Float := ⟨Float.ofNat⟩', 'local instance : IntCast Float := ⟨Float.ofInt⟩',
+         'private def fl_ (v : Int) : Float := Float.ofBits v.toNat.toUInt64', '',
+         '/-- driver op `cs`: `fn` = generated definition, `a` = its scalar arguments in order, `l0, l1, …` = its list',
          '    arguments in order, `dt` = dtype name; answers `r=<value>` (`r=u` for `none`) -/',
          'def handle (a : Args) : String :=',
          '  let xs := a.ints "a"',
@@ -2171,6 +2327,8 @@ def handle_block(entries) -> list[str]:
          '  let dt := DT.ofName (a.str "dt")',
          '  match a.str "fn" with']
     for lean, kinds, uses_dt, opt, *over in entries:
+        if over and over[0] == '-':
+            continue
         args, si, li = [], 0, 0
         for kd in kinds:
             if kd == 'list':
@@ -2194,6 +2352,8 @@ def handle_block(entries) -> list[str]:
             s.append(f'  | "{lean}" => "r=" ++ showInts ({call})')
         elif opt == 'trace':
             s.append(f'  | "{lean}" => "r=" ++ ";".intercalate (({call}).map fun p => s!"{{p.1}},{{p.2}}")')
+        elif opt == 'fbits':
+            s.append(f'  | "{lean}" => s!"r={{({call}).toBits.toNat}}"')
         elif opt == 'trace3':
             s.append(f'  | "{lean}" => "r=" ++ ";".intercalate (({call}).map fun p => s!"{{p.1}},{{p.2.1}},{{p.2.2}}")')
         else:
@@ -2245,7 +2405,7 @@ def generate(repo: Path, outdir: Path) -> dict:
             dt=('T-as-arg' if tg.get('template_call') else uses_dt), trace=bool(tg.get('trace')))
         entries.append((tg['lean'], [kd for _, kd in allp], uses_dt,
                         'opt' if tg.get('flag_const') else (('trace3' if tg['trace'].get('etype') else 'trace') if tg.get('trace')
-                                                            else ('list' if tg['ret_kind'] == 'list' else '')),
+                                                            else ('list' if tg['ret_kind'] == 'list' else ('fbits' if tg['ret_kind'] == 'F' else ''))),
                         tg.get('driver_call')))
         names[blk] = ['Mahotas.Generated.C.' + n for n in defined_names('\n'.join(lines))]
         blocks.append([blk, list(lines)])
